@@ -393,6 +393,8 @@ def rule_rekey10(run):
 
 
 def check(run):
+    from .pred_common import rule_pred
+    run.guarded('PRED', lambda r: rule_pred(r, floor=1, only=('mulgrid.set_column_num_layers',)))
     run.guarded('PAIR', rule_pair)
     run.guarded('NBRSYM', rule_nbrsym)
     run.guarded('COUPLE', rule_couple)
